@@ -186,10 +186,10 @@ the `Print Assumptions` summary.
 |---|---|---|---|---|
 | C01 | Qubit: simplify sound + canonical, `*`,`+`,`-`,scalar,`**` homomorphisms; Fermion: same; source Pauli table = model table (re-proved each run) | Majorana merge / sort (index sets < 5, words <= 4) | aliasing programs over 5 classes vs the heap model; Majorana arithmetic vs model and JW denotation | - |
 | C02 | `isclose` = per-term spec, symmetric, order / other-term independent | Majorana commutation test, `is_normal_ordered` = fixed points of normal ordering | ==, !=, isclose, predicates, tensor equality | - |
-| C03 | CAR in the Fock semantics; checker soundness | normal-ordering model sound / ordered / idempotent for all words <= 4 (fermion 3 modes; boson, quad hbar 2 and 1/2) | all three algebras, InteractionOperator, chemist_ordered, reorder, canonicity pairs | - |
-| C04 | JW ladder / operator soundness; checker soundness | - | every fast path (InteractionOperator, DCH, one_body/two_body on all index tuples < 4, reverse JW); dual-basis jellium / plane-wave helpers on cubic, rectangular and sheared cells (tolerance 1e-9 inside Coq) | - |
+| C03 | CAR in the Fock semantics; checker soundness; `C03_normal_ordered_term_sound` / `C03_normal_ordered_sound`: the model of fermionic normal ordering (double loop, recursive contraction, fuel) with exact accumulation preserves the denotation of every word of any length and of every operator | normal-ordering model sound / ordered / idempotent for all words <= 4 (fermion 3 modes; boson, quad hbar 2 and 1/2) | all three algebras, InteractionOperator, chemist_ordered, reorder, canonicity pairs | - |
+| C04 | JW ladder / operator soundness; `C04_majorana_jw_sound` (every MajoranaOperator: gamma_2q = a_q + a+_q, gamma_2q+1 = i(a+_q - a_q)); checker soundness | - | every fast path (InteractionOperator, DCH, one_body/two_body on all index tuples < 4, reverse JW); dual-basis jellium / plane-wave helpers on cubic, rectangular and sheared cells (tolerance 1e-9 inside Coq) | - |
 | C05 | `C05_bk_ladder_linear` (every n, mode, state, given decidable mask identities); `C05_bk_sound_upto_128` (every operator and state, n <= 128), encoding injective; `C05_bkt_sound_upto_40` (tree variant) | encoding validity for every n_qubits <= 7 (BK and BK-tree); Fenwick set identities n_qubits <= 128 | index sets (n <= 48/128), images, operators, encoding property on outputs, SRL all (i,j) n <= 16/40, InteractionOperator path | - |
-| C06 | product = composition (basis of MatrixOf) | - | every matrix entry of sparse operators vs MatrixOf / Bargmann; matvec, parallel matvec (forced orders), diagonal, expectation, variance | quad matrices, eigenspectrum traces |
+| C06 | product = composition (basis of MatrixOf); `C06_linear_operator_term_correct` (the vector-splitting algorithm of LinearQubitOperator, modelled on perfect binary trees, realises the Pauli semantics for every n, canonical term, vector), `C06_linear_operator_is_sum_of_terms` | - | every matrix entry of sparse operators vs MatrixOf / Bargmann; matvec (also against the model `lqo`), parallel matvec (forced orders), diagonal, expectation, variance | quad matrices, eigenspectrum traces, ARPACK wrappers (get_ground_state, get_gap), density matrix, inner product |
 | C07 | adjoint theorem; commutator-checker soundness | - | hermitian_conjugated, (anti)commutator, double commutator + hopping shortcut, all dual-basis pairs / triples, DC commutator, trotter_error predicates, bch_expand against an exact BCH series (nilpotent exp/log inside Coq) | - |
 | C08 | checker soundness | - | tensor arithmetic, all conversions and round trips, boson<->quad, rotate_basis = substitution, DOCI | rotation spectra |
 | C09 | GF(2) evaluation homomorphism, canonical form sound; `C09_parity_code_roundtrip`, `C09_jw_code_roundtrip` (every n) | - | BinaryPolynomial expressions, code validity on whole domains, binary_code_transform, JW/BK reproduction | - |
@@ -197,13 +197,13 @@ the `Print Assumptions` summary.
 | C11 | `C11_square/rect/gauss_layers_ok` (every size: adjacent, disjoint within a layer, depth) | covering (each required entry once) for n <= 32 (20) | reconstruction of every decomposition; emitted schedule = model | - |
 | C12 | `C12_diagonal_form_spectrum` (every diagonal form: eigenvalues are the subset sums); product / adjoint theorems used | - | Bogoliubov constraints + diagonal form, majorana_form, canonical form, eigenvector residuals | subset-sum spectrum, Slater minors |
 | C13 | `C13_bonds_are_lattice_edges`, `C13_each_bond_once` (every lattice size, both boundary conditions); `C13_gen_right/bottom_neighbor_is_model` (source functions, translated on every run, equal the model for all arguments) | same, re-checked for x,y <= 12 | all Hubbard-type generators vs edge-list specification, Hermiticity, conservation, general model, jellium consistency | jellium transcendental sums (consistency only) |
-| C14 | `C14_swap_network_correct` (every n, both offsets: pairs once, adjacent, reversal) | same, n <= 40 by evaluation | swap network events; oracle tie | all circuit / gate unitaries |
+| C14 | `C14_swap_network_correct` (every n, both offsets: pairs once, adjacent, reversal) | same, n <= 40 by evaluation | swap network events; oracle tie | all circuit / gate unitaries, gates from InteractionOperators (G_I = exp(i H_I)) |
 | C15 | Suzuki leaf times sum, leaf count; over R: the split factor 1/(4 - 4^(1/(2k-1))) cancels the order-(2k-1) term | - | oracle tie | convergence order, exactness, final assignment, controlled variants |
-| C16 | checker soundness | - | reduce agrees on sector, tapering step, projection / freezing matrix elements, Pauli rotation | sector spectra, SCBK |
+| C16 | checker soundness; `C16_agrees_on_sector_sound`: a positive verdict (H' - H) prod (1+s_i)/2 = 0 implies H' v = H v for every vector v stabilised by all s_i | - | reduce agrees on sector, tapering step, projection / freezing matrix elements, Pauli rotation | sector spectra, SCBK |
 | C17 | product homomorphism, checker soundness | RDM mapping identities (two-hole, particle-hole, one-hole, contractions) for all index tuples over 4 modes | low-rank reconstruction, one-body-squared identity, spin-orbital expansion, every active-space partition; RDM mapping functions = the proved right-hand sides on arbitrary integer tensors | truncation values, RDMs of random states |
 | C18 | `C18_grouping_is_partition` (every seed / shuffle family, every operator); `C18_pair_between_each_pair_once`, `C18_pair_between_pairing_disjoint` (every pair of lengths); checker soundness (by unfolding) | - | grouping model replayed with the recorded shuffles; complete outputs of all generators on complete length ranges | - |
-| C19 | `C19_alias_table_exact` (every non-negative weight list summing to n t: no overrun, exact table) | same for n <= 5, t <= 5 by enumeration | alias tables, discretisation, norms, QR/QI over complete ranges, QR2/QI2, power_two, cost arithmetic | - |
-| C20 | save/load state machine: no overwrite (step and histories), load-after-save | - | histories vs model, print/parse | MolecularData round trips (HDF5) |
+| C19 | `C19_alias_table_exact` (every non-negative weight list summing to n t: no overrun, exact table) | same for n <= 5, t <= 5 by enumeration | alias tables, discretisation, norms, QR/QI over complete ranges, QR2/QI2, power_two, THC / sparse cost arithmetic, surface-code `estimate_cost` (checker `phys_cost_ok`) | `cost_estimator` minimality, failure probability |
+| C20 | save/load state machine: no overwrite (step and histories), load-after-save | - | histories vs model, print/parse | MolecularData round trips (HDF5), several records with generated names in one directory |
 
 ---------------------------------------------------------------------------------------------
 '''
